@@ -19,7 +19,11 @@ macro_rules! listen_and_accept {
 				let acceptor = $acceptor.clone();
 				thread::spawn(move || {
 					debug!("new client");
-					let _ = acceptor.accept(stream).unwrap();
+					// A failed handshake (scan, plain HTTP, foreign ALPN...) must not take the
+					// whole process down, which a panic does in release builds.
+					if let Err(e) = acceptor.accept(stream) {
+						debug!("handshake failed: {e}");
+					}
 				});
 			};
 		}
